@@ -200,8 +200,20 @@ def main(argv):
                 rfail.append({"program": "resource-under-boundary", "schedule": sched, "failures": [{"what": "panic", "line": ls[-1]}]})
                 continue
             body = ls[:-1]
-            bad = [{"step": j, "what": "the boundary's is_loading differs from 'the latest fetch of the resource read under it is outstanding'", "line": l}
-                   for j, l in enumerate(body) if dict(f.split("=") for f in l.split())["sus"] != dict(f.split("=") for f in l.split())["loading"]]
+            # the property's letter: loading iff some task registered under the boundary is unfinished. The latest fetch is such a task
+            # while it is outstanding; when every fetch that was started has been completed by the schedule nothing is left. (In
+            # between, a superseded fetch that has not completed counts only if it was not cancelled: the model says it is cancelled,
+            # and decides that case through the correspondence below.)
+            bad = []
+            completed = set()
+            for j, l in enumerate(body):
+                f = dict(x.split("=") for x in l.split())
+                if j > 0 and c[j - 1][0] == "complete" and c[j - 1][1] < int(dict(x.split("=") for x in body[j - 1].split())["started"]):
+                    completed.add(c[j - 1][1])          # (a completion of a fetch that has not been started yet completes nothing)
+                if f["loading"] == "1" and f["sus"] != "1":
+                    bad.append({"step": j, "what": "the boundary is not loading although the latest fetch of the resource read under it is outstanding", "line": l})
+                if f["sus"] == "1" and all(k in completed for k in range(int(f["started"]))):
+                    bad.append({"step": j, "what": "the boundary is loading although every fetch that was started has completed", "line": l})
             bad += [dict(f, what="(resource clause) " + f["what"]) for f in c15.oracle(c, [l.rsplit(" sus=", 1)[0] for l in body])]
             if bad:
                 rfail.append({"program": "resource-under-boundary", "schedule": sched, "failures": bad[:3], "output": body})
